@@ -3,6 +3,7 @@ import XdistModel.Driver.Worker
 import XdistModel.Driver.Pure
 import XdistModel.Driver.Ctl
 import XdistModel.Driver.Sys
+import XdistProofs.Sys.DriverInv
 open Xdist.Driver
 
 def main (args : List String) : IO UInt32 := do
@@ -12,6 +13,6 @@ def main (args : List String) : IO UInt32 := do
   | ["sched"] => loop stdin stdout ({} : Sched.St) Sched.handle; return 0
   | ["ctl"] => loop stdin stdout ({} : Ctl.St) Ctl.handle; return 0
   | ["pure"] => loop stdin stdout ({} : Pure.St) Pure.handle; return 0
-  | ["sys"] => loop stdin stdout ({} : Sys.St) Sys.handle; return 0
+  | ["sys"] => loop stdin stdout ({} : Sys.St) Sys.handleInv; return 0
   | ["worker"] => loop stdin stdout ({} : Xdist.Worker.State) Worker.handle; return 0
   | _ => IO.eprintln "usage: driver <component>"; return 2
